@@ -19,6 +19,12 @@
       the assembly of θ in `fit_interpolate`, the final normalisation to unit norm.
   The *property demands* that the pooled target of the whitened criteria is formed with the
   same `sigma_k` as the criterion (`pool_rdm(data, method, sigma_k)`); the model does that.
+  Scalar arithmetic whose exact text matters is *called* from the generated leaves
+  `Rsa.Gen.C08.*` (regenerated from `fitter.py` / `model.py` on every run): the two weights of
+  an interpolation fit and the offset of the second index, the entry of the final
+  normalisation, the NNLS threshold, iteration bound, step length and step update, the
+  `theta ** 2` reparametrisation and the loss of the optimising fitters, the clamp and the
+  `None` default of `ModelInterpolate`, the default-fitter dispatch of the model classes.
   Parameters / contracts: the linear solves (`np.linalg.solve`, `scipy.sparse.linalg.cg`;
   the driver uses `Compare.solve`), the per-segment results of `minimize_scalar`, BFGS.
   No Mathlib here.
@@ -26,6 +32,7 @@
 import Rsa.Core.Num
 import Rsa.Core.Tri
 import Rsa.Core.Compare
+import Rsa.Gen.C08
 
 namespace Rsa.Fit
 open Rsa Rsa.Compare
@@ -68,8 +75,8 @@ def setIndex (n : Nat) (d : Desc) : Desc :=
   (d.filter (fun kv => kv.1 != "index")) ++ [("index", List.range n)]
 
 section classes
-variable {α : Type} [Add α] [Sub α] [Mul α] [Div α] [Zero α] [One α] [NatCast α]
-  [LT α] [DecidableLT α]
+variable {α : Type} [Add α] [Sub α] [Mul α] [Div α] [Neg α] [Zero α] [One α] [NatCast α]
+  [LT α] [DecidableLT α] [LE α] [DecidableLE α] [Max α] [Min α]
 
 def vecLen (M : Model α) : Nat := triLen M.nCond
 
@@ -102,12 +109,12 @@ def predictVec (M : Model α) : Param α → Option (List α)
     | .interpolate =>
       match p with
       | .none => some (predict (vecLen M) M.obj
-          ((List.range M.obj.length).map (fun i => if i < 2 then half else 0)))
+          ((List.range M.obj.length).map (fun i => Rsa.Gen.C08.interpDefault i)))
       | .vec θ => some (predict (vecLen M) M.obj θ)
       | .idx _ => none
 
-/-- `np.maximum(theta, 0)` -/
-def clampNonneg (θ : List α) : List α := θ.map (fun t => if t < 0 then 0 else t)
+/-- `np.maximum(theta, 0)` (generated leaf) -/
+def clampNonneg (θ : List α) : List α := θ.map (fun t => Rsa.Gen.C08.interpClamp t)
 
 /-- `Model*.predict_rdm(theta)`: the vectors of the returned RDMs object and its pattern
     descriptors -/
@@ -155,6 +162,32 @@ def fromDict (d : ModelDict α) : Option (Model α) :=
   else if d.typeName = "ModelWeighted" then some (mkModel .weighted d.name d.nCond d.rdm d.desc)
   else if d.typeName = "ModelInterpolate" then some (mkModel .interpolate d.name d.nCond d.rdm d.desc)
   else none
+
+/-- the fitting functions of `model/fitter.py` -/
+inductive Fitter where
+  | mock | select | optimize | interpolate | regress | regressNN | optimizePositive
+  deriving DecidableEq, Repr
+
+def Kind.code : Kind → Nat
+  | .fixed => 0 | .select => 1 | .weighted => 2 | .interpolate => 3
+
+def fitterOfCode : Nat → Fitter
+  | 0 => .mock | 1 => .select | 2 => .optimize | _ => .interpolate
+
+/-- `self.default_fitter` of the model classes (generated dispatch table) -/
+def defaultFitter (k : Kind) : Fitter := fitterOfCode (Rsa.Gen.C08.defaultFitterCode k.code)
+
+/-- `self.n_param` -/
+def nParam (M : Model α) : Nat := Rsa.Gen.C08.nParam M.kind.code M.obj.length
+
+/-- `Model.fit(data, method, pattern_idx, pattern_descriptor, sigma_k)`: the class's default
+    fitter applied to the model itself with the arguments passed through unchanged
+    (`fitters` interprets a fitter name as the function of model and call arguments) -/
+def modelFit {Args Res : Type} (fitters : Fitter → Model α → Args → Res) (M : Model α) (a : Args) : Res :=
+  fitters (defaultFitter M.kind) M a
+
+/-- `fit_mock`: `np.zeros(model.n_param)` -/
+def fitMock (M : Model α) : List α := List.replicate (nParam M) 0
 
 end classes
 
@@ -214,8 +247,8 @@ def Method.centred : Method → Bool
   | _ => false
 
 section fit
-variable {α : Type} [Add α] [Sub α] [Mul α] [Div α] [Zero α] [One α] [NatCast α]
-  [LT α] [DecidableLT α] [HasSqrt α]
+variable {α : Type} [Add α] [Sub α] [Mul α] [Div α] [Neg α] [Zero α] [One α] [NatCast α]
+  [LT α] [DecidableLT α] [LE α] [DecidableLE α] [Max α] [Min α] [HasSqrt α]
 
 /-- similarity of a prediction and one data RDM under a criterion (`compare`) ;
     `V` is the (masked) covariance of the RDM entries for the whitened criteria -/
@@ -285,10 +318,14 @@ def gramOf (sol : List α → List α) (A : List (List α)) : List (List α) :=
 def rhsOf (sol : List α → List α) (A : List (List α)) (y : List α) : List α :=
   A.map (fun a => dot (sol a) y)
 
-/-- final normalisation: `theta / sqrt(sum(theta**2))` unless the norm is zero -/
+/-- `np.sum(theta ** 2)` (entries from the generated leaf) -/
+def normSq (θ : List α) : α := (θ.map (fun t => Rsa.Gen.C08.normSqEntry t)).sum
+
+/-- final normalisation: `theta / sqrt(sum(theta**2))` unless the norm is zero (entry formula
+    from the generated leaf of `fit_regress`; the other three fitters' leaves are proved equal) -/
 def normalise (θ : List α) : List α :=
-  let nrm := dot θ θ
-  if 0 < nrm then θ.map (fun t => t / HasSqrt.sqrt nrm) else θ
+  let nrm := normSq θ
+  if 0 < nrm then θ.map (fun t => Rsa.Gen.C08.normEntryRegress t (HasSqrt.sqrt nrm)) else θ
 
 /-- `fit_regress` on dense rows: pooled target, normalisation, normal equations -/
 def fitRegress (meth : Method) (sol : List α → List α) (A : List (List α))
@@ -336,23 +373,25 @@ def argminFirst (w : List α) : Nat × α :=
 def blocking (xp s : List α) : Option (Nat × α) :=
   ((List.range s.length).filter (fun i => decide (s.getD i 0 < 0))).foldl
     (fun acc i =>
-      let a := xp.getD i 0 / (xp.getD i 0 - s.getD i 0)
+      let a := Rsa.Gen.C08.nnlsStepLen (xp.getD i 0) (s.getD i 0)
       match acc with
       | none => some (i, a)
       | some (j, b) => if a < b then some (i, a) else some (j, b)) none
 
 /-- inner loop: while some passive coefficient is negative, step towards `s` as far as
-    feasibility allows and drop the blocking index -/
+    feasibility allows and drop the blocking index.  The Boolean says whether the loop ended
+    through its test (`true`: no negative coefficient left) or ran out of fuel (`false`;
+    `nnlsInner_fuel_suffices`: with `fuel > number of passive coefficients` it never does). -/
 def nnlsInner (G : List (List α)) (c : List α) :
-    Nat → List α → List Bool → List α → List α × List Bool × List α
-  | 0, x, p, s => (x, p, s)
+    Nat → List α → List Bool → List α → List α × List Bool × List α × Bool
+  | 0, x, p, s => (x, p, s, (blocking (gather (whereTrue p) x) s).isNone)
   | fuel + 1, x, p, s =>
     let idx := whereTrue p
     let xp := gather idx x
     match blocking xp s with
-    | none => (x, p, s)
+    | none => (x, p, s, true)
     | some (ia, alpha) =>
-      let xp' := List.zipWith (fun xi si => xi + alpha * (si - xi)) xp s
+      let xp' := List.zipWith (fun xi si => Rsa.Gen.C08.nnlsStepUpdate xi alpha si) xp s
       let x1 := scatter x idx xp'
       let gi := idx.getD ia 0
       let x2 := x1.set gi 0
@@ -372,8 +411,8 @@ def argmaxActive (p : List Bool) (w : List α) : Option (Nat × α) :=
       | some (j, b) => if b < v then some (i, v) else some (j, b)) none
 
 /-- outer loop: while a coefficient fixed at zero has a gradient above `tol`, release the
-    one with the largest gradient; the Boolean says whether the loop ended through its
-    test (`true`) or the iteration bound (`false`) -/
+    one with the largest gradient; the Boolean says whether all loops ended through their
+    tests (`true`) or an iteration bound was hit (`false`) -/
 def nnlsOuter (tol : α) (G : List (List α)) (c : List α) :
     Nat → List α → List Bool → List α → List α × List Bool × List α × Bool
   | 0, x, p, w => (x, p, w, false)
@@ -385,22 +424,25 @@ def nnlsOuter (tol : α) (G : List (List α)) (c : List α) :
         let p1 := p.set im true
         let idx1 := whereTrue p1
         let s1 := solve (subMat idx1 G) (gather idx1 c)
-        let (x2, p2, s2) := nnlsInner G c (c.length + 1) x p1 s1
-        let x3 := scatter x2 (whereTrue p2) s2
+        let r := nnlsInner G c (c.length + 1) x p1 s1
+        let x3 := scatter r.1 (whereTrue r.2.1) r.2.2.1
         let w3 := vsub c (matVec G x3)
-        nnlsOuter tol G c fuel x3 p2 w3
+        let o := nnlsOuter tol G c fuel x3 r.2.1 w3
+        (o.1, o.2.1, o.2.2.1, o.2.2.2 && r.2.2.2)
       else (x, p, w, true)
 
 /-- largest absolute value -/
 def maxAbs (l : List α) : α :=
   l.foldl (fun acc a => let b := if a < 0 then 0 - a else a; if acc < b then b else acc) 0
 
-/-- `_nn_least_squares` from the precomputed `ATA = G`, `Aᵀ V⁻¹ y = c`: the gradient of a
-    coefficient fixed at zero counts as positive above `eps · max|c|`; at most `3k`
-    outer iterations (as `scipy.optimize.nnls`).  Returns `(x, w, exited)`. -/
+/-- `_nn_least_squares` from the precomputed `ATA = G`, `Aᵀ V⁻¹ y = c` (`eps` = machine
+    epsilon): the gradient of a coefficient fixed at zero counts as positive above
+    `tol = 100 · eps · max|c|`; at most `3k` outer iterations (as `scipy.optimize.nnls`) — both
+    expressions are generated leaves.  Returns `(x, w, exited)`. -/
 def nnls (eps : α) (G : List (List α)) (c : List α) : List α × List α × Bool :=
   let k := c.length
-  let r := nnlsOuter (eps * maxAbs c) G c (3 * k) (List.replicate k 0) (List.replicate k false) c
+  let r := nnlsOuter (Rsa.Gen.C08.nnlsTol eps (maxAbs c)) G c (Rsa.Gen.C08.nnlsIterBound k)
+    (List.replicate k 0) (List.replicate k false) c
   (r.1, r.2.2.1, r.2.2.2)
 
 /-- the Karush–Kuhn–Tucker predicate of `min ‖y − Aᵀx‖² s.t. x ≥ 0`, with slack `tol`:
@@ -423,23 +465,59 @@ def fitRegressNN (eps : α) (meth : Method) (sol : List α → List α)
 /-- `fit_select`: `np.argmax(evaluations)` -/
 def fitSelect (evals : List α) : Nat := (argmaxFirst evals).1
 
-/-- θ of `fit_interpolate`: zeros, `θ[i] = w`, `θ[i+1] = 1 − w` -/
+/-- θ as `loss_opt(w)` of `fit_interpolate` builds it: zeros, `θ[i] = w`, `θ[i+1] = 1 − w`
+    (values and index offset from the generated leaves) -/
 def interpTheta (k i : Nat) (w : α) : List α :=
-  (List.range k).map (fun j => if j = i then w else if j = i + 1 then 1 - w else 0)
+  (List.range k).map (fun j =>
+    if j = i then Rsa.Gen.C08.interpFirst w
+    else if j = Rsa.Gen.C08.interpSecondIndex i then Rsa.Gen.C08.interpSecond w else 0)
+
+/-- θ as `fit_interpolate` assembles its result from `result.x` -/
+def interpThetaRes (k i : Nat) (w : α) : List α :=
+  (List.range k).map (fun j =>
+    if j = i then Rsa.Gen.C08.interpResFirst w
+    else if j = Rsa.Gen.C08.interpResSecondIndex i then Rsa.Gen.C08.interpResSecond w else 0)
 
 /-- `fit_interpolate` given the per-segment results of the bounded scalar search
     (`ws[i]`, `losses[i]`): best segment by `np.argmin`, θ assembled from it -/
 def fitInterpolate (k : Nat) (ws losses : List α) : List α :=
   let i := (argminFirst losses).1
-  interpTheta k i (ws.getD i 0)
+  interpThetaRes k i (ws.getD i 0)
+
+/-! ### the optimising fitters (`fit_optimize`, `fit_optimize_positive`) -/
+
+/-- `_loss(theta, …)`: minus the mean similarity plus the ridge penalty (generated leaf);
+    `score θ` stands for `np.mean(compare(model.predict_rdm(theta) …, data, method, sigma_k))` -/
+def lossOf (score : List α → α) (ridge : α) (θ : List α) : α :=
+  Rsa.Gen.C08.lossValue (score θ) (dot θ θ) ridge
+
+/-- `theta ** 2` -/
+def squareParam (φ : List α) : List α := φ.map (fun t => Rsa.Gen.C08.positiveParam t)
+
+/-- the objective `fit_optimize_positive` hands to BFGS: `_loss(theta ** 2, …)` -/
+def lossPos (score : List α → α) (ridge : α) (φ : List α) : α := lossOf score ridge (squareParam φ)
+
+/-- `thetas[np.argmin(losses)]` -/
+def pickBest (thetas : List (List α)) (losses : List α) : List α :=
+  thetas.getD (argminFirst losses).1 []
+
+/-- `fit_optimize` given the results of its BFGS restarts -/
+def fitOptimize (thetas : List (List α)) (losses : List α) (norm : Bool) : List α :=
+  let θ := pickBest thetas losses
+  if norm then normalise θ else θ
+
+/-- `fit_optimize_positive` given the candidate points (θ = 0 first) and their losses -/
+def fitOptimizePositive (phis : List (List α)) (losses : List α) (norm : Bool) : List α :=
+  let θ := squareParam (pickBest phis losses)
+  if norm then normalise θ else θ
 
 end fit
 
 /-! ## 4. the whole call: subsampling, NaN removal, V, fit -/
 
 section whole
-variable {α : Type} [Add α] [Sub α] [Mul α] [Div α] [Zero α] [One α] [NatCast α]
-  [LT α] [DecidableLT α] [HasSqrt α]
+variable {α : Type} [Add α] [Sub α] [Mul α] [Div α] [Neg α] [Zero α] [One α] [NatCast α]
+  [LT α] [DecidableLT α] [LE α] [DecidableLE α] [Max α] [Min α] [HasSqrt α]
 
 /-- the model RDMs (entries missing in every RDM are `none`) as the fitter sees them: `model.rdm_obj.subsample_pattern(descriptor,
     pattern_idx)` (or untouched when no pattern selection is given) -/
